@@ -187,6 +187,35 @@ hll_array_any_bytes!(c14_hll_array4_any_bytes_truncated, 0, true);
 hll_array_any_bytes!(c14_hll_array8_any_bytes_truncated, 2, true);
 //@ endfamily: x
 
+//@ props: C14
+//@ tier: quick
+//@ timeout: 1200
+//@ functions: hll::sketch::HllSketch::deserialize
+//@ functions: hll::array4::Array4::deserialize
+//@ functions: hll::aux_map::AuxMap::insert
+//@ stubs: alloc::fmt::format -> empty string; Vec::with_capacity -> empty vector
+//@ bounds: every 52-byte Hll4 image at lg_k 4 in the compact form whose aux count (@36) is the literal 1 and whose flags byte is the literal COMPACT: cur_min, the estimator fields, numAtCurMin, all 8 nibble bytes and the aux pair (slot, value) symbolic
+//@ desc: Array4::deserialize returns Ok or Err without panic for every such image - in particular for an aux pair whose value is below cur_min, below cur_min + 15, above 63, or whose register does not hold the aux token; an accepted image has exactly one exception and consistent counts
+#[kani::proof]
+#[kani::unwind(18)]
+#[kani::stub(alloc::fmt::format, stub_format)]
+#[kani::stub(alloc::vec::Vec::with_capacity, crate::verif_kani_common::stub_with_capacity)]
+fn c14_hll_array4_one_aux_entry_any_bytes() {
+    let mut img: [u8; 52] = kani::any();
+    img[3] = 4;
+    img[5] = 8;
+    img[7] = 2;
+    img[36] = 1;
+    img[37] = 0;
+    img[38] = 0;
+    img[39] = 0;
+    let r = HllSketch::deserialize(&img);
+    kani::cover!(r.is_ok());
+    kani::cover!(r.is_err());
+    kani::cover!(img[6] > 0 && (img[51] >> 2) < img[6]); // aux value below cur_min
+    core::mem::forget(r);
+}
+
 // ---------------------------------------------------------------------------------------------
 // C11 / C12 / C13 / C18: round trip against a SPEC ENCODER. The image is rebuilt from the documented
 // layout in an exact-size array (<= 64 bytes, structural fields as literals), the real serialize() must
